@@ -402,15 +402,14 @@ def hash_seed_runs(ctx, prob_seed, n_leaves, n_proc, base, seeds):
     env['PYTHONPATH'] = os.pathsep.join(
         [str(core.VERIF / 'harness')] +
         ([env['PYTHONPATH']] if env.get('PYTHONPATH') else []))
-    procs = []
     for hs in seeds:
+        # one after the other: each run starts up to n_proc workers itself
         e = dict(env)
         e['PYTHONHASHSEED'] = hs
-        procs.append((hs, subprocess.Popen(
+        p = subprocess.Popen(
             [sys.executable, '-m', 'ctmverif.stagefix', json.dumps(spec)],
             env=e, stdout=subprocess.PIPE, stderr=subprocess.PIPE,
-            text=True)))
-    for hs, p in procs:
+            text=True)
         out, errtxt = p.communicate(timeout=300)
         line = [l for l in out.splitlines() if l.startswith('CANONICAL ')]
         if p.returncode != 0 or not line:
